@@ -80,7 +80,9 @@ Print Assumptions C13hs13_stale_fragment_reanswers.
    by TestVerifHs13Cookie's injection scenarios) *)
 Theorem C13hs13_hrr_only_for_client_hello_refuted :
   exists (e : ep) (d : dgram) (now : N),
-    pre_cookie stale_cfg e /\ carries_client_hello d = false /    snd (on_datagram stale_cfg e d now) = pack stale_cfg (fl_lookup F2 (c_fl stale_cfg)) /    snd (on_datagram stale_cfg e d now) <> [].
+    pre_cookie stale_cfg e /\ carries_client_hello d = false /\
+    snd (on_datagram stale_cfg e d now) = pack stale_cfg (fl_lookup F2 (c_fl stale_cfg)) /\
+    snd (on_datagram stale_cfg e d now) <> [].
 Proof. exact hrr_only_for_client_hello_refuted. Qed.
 Print Assumptions C13hs13_hrr_only_for_client_hello_refuted.
 
